@@ -403,10 +403,30 @@ func Run() *seqrt.Result {
 			res.Sample = fmt.Sprintf("%%s: calls %%v", fault, dLog)
 		}
 	}
+	// one derived function value used for a sequence of calls: what an earlier call reported must not matter
+	for ei, e := range []error{errA, errB} {
+		fn := deriveToError(e, stage)
+		for step, fa := range []int{-1, 0, -1, 0, 0, -1} {
+			fault := fmt.Sprintf("call %%d of one derived function: f reports %%v, supplied error #%%d", step, fa == -1, ei)
+			failAt = fa
+			log = nil
+			%s := fn(%s)
+			%s := Reference(e%s)
+			res.Cases++
+			if derr != rerr {
+				problem(res, "wrong-error", fault, fmt.Sprintf("derived returns error %%v, expected %%v", derr, rerr))
+			}
+			if !same(%s, %s) {
+				problem(res, "wrong-results", fault, fmt.Sprintf("derived returns %%v, expected %%v", %s, %s))
+			}
+		}
+	}
 	res.Calls, res.Faults = calls, faults
 	return res
 }
 `, name, withErr(prefixed("d", rv), "derr"), prefixComma(splitArgs(args)), withErr(prefixed("x", rv), "rerr"), prefixComma(splitArgs(args)),
+		anyList(prefixed("d", rv)), anyList(prefixed("x", rv)), anyList(prefixed("d", rv)), anyList(prefixed("x", rv)),
+		withErr(prefixed("d", rv), "derr"), strings.Join(splitArgs(args), ", "), withErr(prefixed("x", rv), "rerr"), prefixComma(splitArgs(args)),
 		anyList(prefixed("d", rv)), anyList(prefixed("x", rv)), anyList(prefixed("d", rv)), anyList(prefixed("x", rv)))
 	return &Shape{Name: name, Kind: "toerror", Source: sb.String(), Decoded: map[string]any{"kind": "toerror", "params": tyList(ps), "param_names": strings.Join(anames, ","), "named_results": namedResults, "results": tyList(rs)}}
 }
